@@ -246,5 +246,7 @@ def in_dfrag(case):
             return cok(c[1]) and cok(c[2])
         if k == 'not':
             return cok(c[1])
+        if k == 'sub':
+            return cok(c[2]) and all(tok(t) for t in c[1])
         return False
     return case.get('cond') is not None and cok(case['cond']) and all(tok(t) for t in case['sel']) and not case.get('infer')
